@@ -257,13 +257,14 @@ Fixpoint member_eqb (a b : member) : bool :=
 
 (* alias members that the application step replaced by another alias: set_member re-targets the aliases registered on a
    replaced *object*, not those pointing at a replaced *alias*; whoever resolved (and cached) such a target earlier keeps it *)
+Definition is_object (m : member) : bool := match m with MObj _ _ => true | _ => false end.
 Definition apply_events (fuel : nat) (t : table) (top : string) (mp : path) (ms : list (string * member))
   (es : list expanded_entry) : list (path * string * member) :=
   snd (fold_left (fun acc e =>
                     let ms := fst acc in
                     let ms' := apply_one fuel t top mp ms e in
                     let ev := match lookup (e_name e) ms, lookup (e_name e) ms' with
-                              | Some old, Some new => if is_alias old && negb (member_eqb (relineno old 0) (relineno new 0)) then [(mp, e_name e, old)] else []
+                              | Some old, Some new => if (is_alias old || is_object old) && negb (member_eqb (relineno old 0) (relineno new 0)) then [(mp, e_name e, old)] else []
                               | _, _ => []
                               end in
                     (ms', snd acc ++ ev)) es (ms, [])).
@@ -481,7 +482,10 @@ Fixpoint expx (fuel : nat) (top : string) (mp : path) (s : xstate) : outcome xst
 
 (* every final target an alias can present when each hop that lands on a replaced alias member may still see the replaced one *)
 Definition olds_at (rp : list (path * string * member)) (mp : path) (n : string) : list member :=
-  flat_map (fun e => match e with (p, x, m) => if path_eqb p mp && String.eqb x n then [m] else [] end) rp.
+  flat_map (fun e => match e with (p, x, m) => if path_eqb p mp && String.eqb x n && is_alias m then [m] else [] end) rp.
+(* objects (not aliases) that a wildcard expansion replaced: set_member re-targets the aliases registered on them, by path *)
+Definition oldobjs_at (rp : list (path * string * member)) (mp : path) (n : string) : list member :=
+  flat_map (fun e => match e with (p, x, m) => if path_eqb p mp && String.eqb x n && is_object m then [m] else [] end) rp.
 Fixpoint finals (fuel : nat) (t : table) (top : string) (rp : list (path * string * member)) (m : member) (loc : path) : list fres :=
   match fuel with
   | 0 => [FUnres]
@@ -499,6 +503,34 @@ Fixpoint finals (fuel : nat) (t : table) (top : string) (rp : list (path * strin
       | MWrap src inner _ => match inner with
                              | MObj _ _ | MSub => follow src
                              | _ => finals f t top rp inner src
+                             end
+      end
+  end.
+
+(* `finals`, plus: an object registers the aliases that lead to it BY PATH.  When an alias member was replaced by another alias of the same
+   name (same path), the dead one can take the live one's place in that register (it is re-targeted to the same object later); the object's
+   replacement then re-targets the dead alias only, and the live one keeps the replaced object.  So once the chain has passed over a
+   position with a replaced alias (`d`), a hop that lands on a replaced object may still present that object. *)
+Fixpoint finalsd (fuel : nat) (t : table) (top : string) (rp : list (path * string * member)) (d : bool) (m : member) (loc : path) : list fres :=
+  match fuel with
+  | 0 => [FUnres]
+  | S f =>
+      let follow := fun p => match lookup_path t top p with
+                             | LMod q => [FMod q]
+                             | LMem mp n m' =>
+                                 let d' := d || match olds_at rp mp n with [] => false | _ => true end in
+                                 finalsd f t top rp d' m' (mp ++ [n])
+                                 ++ flat_map (fun o => finalsd f t top rp d' o (mp ++ [n])) (olds_at rp mp n)
+                                 ++ (if d' then flat_map (fun o => match o with MObj k _ => [FObj k (mp ++ [n])] | _ => [] end) (oldobjs_at rp mp n) else [])
+                             | _ => [FUnres]
+                             end in
+      match m with
+      | MObj k _ => [FObj k loc]
+      | MSub => [FMod loc]
+      | MAlias tgt _ _ => follow tgt
+      | MWrap src inner _ => match inner with
+                             | MObj _ _ | MSub => follow src
+                             | _ => finalsd f t top rp d inner src
                              end
       end
   end.
@@ -973,8 +1005,9 @@ Definition enc_alts (t : table) (top : string) (rp amb : list (path * string * m
   | [] => SList []
   | _ => SList (flat_map (fun pst =>
                   flat_map (fun nm => if is_dunder (fst nm) then []
-                                      else match finals fuel t top rpa (snd nm) (fst pst ++ [fst nm])
-                                                 ++ flat_map (fun o => finals fuel t top rpa o (fst pst ++ [fst nm])) (olds_at amb (fst pst) (fst nm)) with
+                                      else let d0 := match olds_at rpa (fst pst) (fst nm) with [] => false | _ => true end in
+                                           match finalsd fuel t top rpa d0 (snd nm) (fst pst ++ [fst nm])
+                                                 ++ flat_map (fun o => finalsd fuel t top rpa d0 o (fst pst ++ [fst nm])) (olds_at amb (fst pst) (fst nm)) with
                                            | [_] => []
                                            | l => [SList [SStr (dotted (fst pst)); SStr (fst nm); SList (map (fun r => enc_view (view_of_fres r)) l)]]
                                            end) (members (snd pst))) t)
